@@ -49,4 +49,48 @@ Proof.
   - intros c bs a b. rewrite !P3. reflexivity.
 Qed.
 
+(* ... and then the two agree, whatever the bounds: a well-formed grammar with any subset of rules
+   memoized is a parser for the PEG language of the grammar, full stop - there is a bound F beyond
+   which the memoized model returns, the specification returns, and acceptance, tree and consumed
+   prefix are the same *)
+Theorem memoized_well_formed_conforms :
+  rec_le scfg = true -> fcfg_sound fcfg = true -> insens_guard rcfg = true ->
+  pure_hooks ustate hk shk ->
+  (forall r, In (GRule r) g -> fl_left_recursive (flags_of (r_directives r)) = false) ->
+  forall nul rk, wf_check g nul rk = true ->
+  forall rule_name cs u, all_scalar cs ->
+  exists F, forall n m, F <= n -> F <= m ->
+    match fst (m_parse ustate scfg term_cfg_expected fcfg rcfg hk g n rule_name (encode_str cs) u) with
+    | MOk v st' =>
+      exists consumed cs' l,
+        s_parse fcfg shk g true m rule_name cs = SOk v cs' (off st') l /\ cs = consumed ++ cs' /\
+        off st' = length (encode_str consumed) /\ rest st' = encode_str cs'
+    | MErr _ => exists l, s_parse fcfg shk g true m rule_name cs = SFail l
+    | MPanic p => p <> PanicShape
+    | MFuel => False
+    end.
+Proof.
+  intros Hle Hf Hg Hp NoLR nul rk WF rule_name cs u Hs.
+  pose proof WF as WF'. rewrite <- wf_check_strip in WF'.
+  destruct (model_terminates ustate scfg fcfg rcfg hk shk (strip g) Hle Hf Hg Hp
+              (strip_plain g NoLR) nul rk WF' rule_name cs u Hs) as [F H].
+  exists F. intros n m Hn Hm.
+  destruct (H F (Nat.le_refl F)) as [HF _]. destruct (H m Hm) as [H1 H2].
+  destruct Hp as [P1 [P2 P3]].
+  assert (Pc : forall f v u0 u', fst (h_check hk f v u0) = fst (h_check hk f v u')) by (intros; rewrite !P1; reflexivity).
+  assert (Pe : forall f bs u0 u', fst (h_extern hk f bs u0) = fst (h_extern hk f bs u')) by (intros; rewrite !P3; reflexivity).
+  pose proof (memoize_keeps_termination ustate scfg term_cfg_expected fcfg rcfg hk g (encode_str cs) NoLR Pc Pe n F rule_name u u Hn HF) as T.
+  pose proof (memoize_transparent ustate scfg term_cfg_expected fcfg rcfg hk g (encode_str cs) NoLR Pc Pe n m rule_name u u) as W.
+  pose proof (conform ustate scfg fcfg rcfg hk shk (strip g) Hle Hf Hg (conj P1 (conj P2 P3)) (strip_plain g NoLR) m rule_name cs u Hs) as C.
+  rewrite Hg in C. rewrite s_parse_strip in C. rewrite s_parse_strip in H2.
+  destruct (fst (m_parse ustate scfg term_cfg_expected fcfg rcfg hk g n rule_name (encode_str cs) u)) as [v st'|e|p|];
+    [| | |apply T; reflexivity];
+    destruct (fst (m_parse ustate scfg term_cfg_expected fcfg rcfg hk (strip g) m rule_name (encode_str cs) u)) as [v2 st2|e2|p2|];
+    cbn in W, C; try contradiction; try (exfalso; apply H1; reflexivity).
+  - destruct W as [-> [Hr Ho]]. destruct C as (consumed & cs' & l & E & E1 & E2 & E3).
+    exists consumed, cs', l. rewrite Ho, Hr. auto.
+  - destruct C as [l [E _]]. exists l. exact E.
+  - subst p2. exact C.
+Qed.
+
 End MT.
